@@ -713,6 +713,36 @@ def r13j(ctx):
         raise AnalysisError(f"R13j: only {n} keyword forwardings found in the get_style family")
 
 
+def r13k(ctx):
+    """Wherever a `style:style` can be put, it is looked for.
+
+    A `style:style` element of any family may sit among the common styles or among the automatic styles of styles.xml (automatic styles of
+    styles.xml serve headers, footers and master pages: a table in a page header has its table, column, row and cell styles there).
+    merge_styles_from copies a style into the container named like the one it came from, and insert_style / merge ask the lookup whether it
+    is already there.  Rule: for every family whose element is `style:style` (FAMILY_MAPPING), the styles.xml lookup contexts
+    (CONTEXT_MAPPING, or the default used for an unlisted family) include both `//office:styles` and `//office:automatic-styles`.
+    """
+    repo = ctx.repo
+    ctx.rule("R13k", "every style:style family is looked up in both office:styles and office:automatic-styles of styles.xml", floor=10)
+    sc = repo.module("utils.style_constants")
+    fam_map = repo.fold(sc.assigns["FAMILY_MAPPING"], sc)
+    st = repo.module("styles")
+    cm = repo.fold(st.assigns.get("CONTEXT_MAPPING"), st)
+    if not isinstance(fam_map, dict) or not isinstance(cm, dict):
+        raise AnalysisError("R13k: FAMILY_MAPPING / CONTEXT_MAPPING not foldable")
+    need = {"//office:styles", "//office:automatic-styles"}
+    for fam, tag in sorted(fam_map.items()):
+        if tag != "style:style" or fam not in cm:
+            continue
+        have = set(cm[fam]) if isinstance(cm[fam], (tuple, list)) else set()
+        ok = need <= have
+        ctx.instance("R13k", f"{st.relpath}:CONTEXT_MAPPING", f"{fam}: {sorted(have)}", ok=ok, nontrivial=True, line=st.assigns["CONTEXT_MAPPING"].lineno)
+        if not ok:
+            ctx.report("R13k", st, st.assigns["CONTEXT_MAPPING"], f"{fam}: looked up in {sorted(have)} only",
+                       f"styles of family {fam!r} are style:style elements and can sit in {sorted(need - have)} of styles.xml (merge_styles_from copies them there), but the lookup does not "
+                       f"search it: such a style is not found again, is missing from get_styles(), and a second merge stores it twice")
+
+
 def run(ctx):
     r13ab(ctx)
     r13c(ctx)
@@ -723,6 +753,7 @@ def run(ctx):
     r13h(ctx)
     r13i(ctx)
     r13j(ctx)
+    r13k(ctx)
 
 
 from ..selftest import Seed, unparse_seed  # noqa: E402
@@ -730,6 +761,7 @@ from ..selftest import Seed, unparse_seed  # noqa: E402
 _DOC = "src/odfdo/document.py"
 _ST = "src/odfdo/styles.py"
 SEEDS = [
+    Seed("table-cell styles looked up among the common styles only", "fault", _ST, '    "table-cell": ("//office:styles", "//office:automatic-styles"),', '    "table-cell": ("//office:styles",),', "R13k"),
     Seed("Styles.get_style retries the name as a display name", "fault", _ST, "        for context in self._get_style_contexts(family):\n            if context is None:\n                continue\n            style = context.get_style(",
          "        if name_or_element and isinstance(name_or_element, str) and not display_name and family == \"none\":\n            return self.get_style(family, display_name=name_or_element)\n        for context in self._get_style_contexts(family):\n            if context is None:\n                continue\n            style = context.get_style(", "R13j"),
     Seed("set_table_displayed renames and moves the style in use", "fault", _DOC, "        new_style = orig_style.clone\n", "        new_style = orig_style\n", "R13i"),
